@@ -1001,6 +1001,43 @@ pub(crate) fn advance_replay_state<P: ProvenanceStore>(
     for raw_tick in start_tick.as_u64()..target_tick.as_u64() {
         let tick = WorldlineTick::from_raw(raw_tick);
         let entry = provenance.entry(worldline_id, tick)?;
+        // Re-verify the coordinate and parent links that `append_*` validated when the
+        // entry was admitted: a retained store that hands back another tick's (or another
+        // worldline's) self-consistent entry must not replay as this worldline's history.
+        if entry.worldline_id != worldline_id {
+            return Err(HistoryError::EntryWorldlineMismatch {
+                expected: worldline_id,
+                got: entry.worldline_id,
+            }
+            .into());
+        }
+        if entry.worldline_tick != tick {
+            return Err(HistoryError::TickGap {
+                expected: tick,
+                got: entry.worldline_tick,
+            }
+            .into());
+        }
+        for parent in &entry.parents {
+            if parent.worldline_id != worldline_id {
+                continue;
+            }
+            let stored = (parent.worldline_tick < tick)
+                .then(|| provenance.entry(worldline_id, parent.worldline_tick).ok())
+                .flatten()
+                .ok_or(HistoryError::MissingParentRef {
+                    tick,
+                    parent: *parent,
+                })?;
+            if stored.expected.commit_hash != parent.commit_hash {
+                return Err(HistoryError::ParentCommitHashMismatch {
+                    tick,
+                    parent: *parent,
+                    stored_commit_hash: stored.expected.commit_hash,
+                }
+                .into());
+            }
+        }
         let patch = entry
             .patch
             .as_ref()
